@@ -189,7 +189,7 @@ def ip_pool(tier, rng):
         out.add(q.encode())
     # IPv6 shapes
     tails = [None, b"1.2.3.4", b"192.0.2.128", b"0.1.2.3", b"1.2.3.256", b"1.2.3", b"1.2.3.4.", b"01.2.3.4", b"1.2.3.0004"]
-    widths = [1, 4] if tier == "quick" else [1, 2, 3, 4]
+    widths = [0, 1, 4, 5] if tier == "quick" else [0, 1, 2, 3, 4, 5]
     for nb in range(0, 9):
         for na in range(-1, 9):        # -1: no '::'
             for tail in tails:
